@@ -7,6 +7,7 @@ import (
 	"math/big"
 	"sort"
 	"strings"
+	"time"
 
 	g "github.com/zenon-network/go-zenon/chain/genesis/mock"
 	"github.com/zenon-network/go-zenon/chain/nom"
@@ -802,8 +803,8 @@ type cellSpec struct {
 	Chain  string `json:"chain"`
 	Method string `json:"method"`
 	Arg    string `json:"arg"`
-	A      uint64 `json:"a"` // pageIndex or height
-	B      uint64 `json:"b"` // pageSize or count
+	A      uint64 `json:"a,string"` // pageIndex or height
+	B      uint64 `json:"b,string"` // pageSize or count
 }
 
 // expectedSlice computes, without any fixed-width arithmetic, the part of truth that (a, b) designates.
@@ -841,16 +842,39 @@ type callOutcome struct {
 	res      *pagedResult
 	err      error
 	panicked interface{}
+	hung     bool
 }
 
+// callTimeout bounds one direct api call. It is not an oracle for slowness: a call that does not come back within a
+// minute, twice, is reported as "no answer" and the work item stops (the abandoned goroutine may hold locks).
+const callTimeout = 60 * time.Second
+
+var abortA bool
+
 func safeCall(in *instance, a, b uint64) (o callOutcome) {
-	defer func() {
-		if r := recover(); r != nil {
-			o.panicked = r
+	if abortA {
+		return callOutcome{hung: true}
+	}
+	for attempt := 0; attempt < 2; attempt++ {
+		ch := make(chan callOutcome, 1)
+		go func() {
+			var x callOutcome
+			defer func() {
+				if r := recover(); r != nil {
+					x.panicked = r
+				}
+				ch <- x
+			}()
+			x.res, x.err = in.Call(a, b)
+		}()
+		select {
+		case o = <-ch:
+			return o
+		case <-time.After(callTimeout):
 		}
-	}()
-	o.res, o.err = in.Call(a, b)
-	return
+	}
+	abortA = true
+	return callOutcome{hung: true}
 }
 
 func describe(es []elem, max int) string {
@@ -874,11 +898,24 @@ func checkCell(r *xs.Result, chain string, in *instance, a, b uint64) bool {
 	r.Count("a_evaluations", 1)
 	spec := cellSpec{chain, in.Method, in.Arg, a, b}
 	viol := func(key, what string) bool {
-		r.Violate("C18:"+key, fmt.Sprintf("chain %q %s a=%d b=%d (list of %d): %s", chain, in.label(), a, b, len(in.Truth), what), map[string]interface{}{"part": "a", "cell": spec})
+		r.Violate("C18:"+key, fmt.Sprintf("chain %q %s a=%d b=%d (list of %d): %s", chain, in.label(), a, b, len(in.Truth), what), map[string]interface{}{"tier": curTier, "part": "a", "cell": spec})
 		return false
 	}
 	o := safeCall(in, a, b)
-	class := func(c string) { r.Add("paging_cases", in.Method+"|"+c) }
+	class := func(c string) {
+		r.Add("paging_cases", in.Method+"|"+c)
+		if c != "empty-list" && c != "zero-size" {
+			r.Add("nontrivial", digest([]byte(fmt.Sprintf("a|%s|%s|%d|%d", chain, in.label(), a, b))))
+			if c == "partial-page" || c == "wrapped" || c == "oversize-rejected" {
+				sampleOnce(r, "a"+c[:1], map[string]interface{}{"tier": curTier, "part": "a", "chain": chain, "method": in.Method, "fixed_args": in.Arg, "a": a, "b": b, "list_len": len(in.Truth), "outcome": c})
+			}
+		}
+	}
+	if o.hung {
+		class("no-answer")
+		r.Incomplete = true
+		return viol(in.Method+":no-answer", "the call did not return within 60 s, twice; the rest of this work item is skipped")
+	}
 	if o.panicked != nil {
 		class("panic")
 		if b > in.Limit {
@@ -899,6 +936,7 @@ func checkCell(r *xs.Result, chain string, in *instance, a, b uint64) bool {
 		}
 		class("oversize-served-within-limit")
 		r.Count("a_oversize_served_within_limit", 1)
+		r.Add("a_methods_without_size_limit", in.Method)
 	}
 	if in.Height && a == 0 {
 		if o.err != nil {
@@ -994,9 +1032,22 @@ func checkInstance(c *xs.Ctx, r *xs.Result, chain string, in *instance) {
 			as = uniq([]uint64{0, 1, 2, uint64(N), uint64(N) + 1, 1 << 63, ^uint64(0)})
 		} else {
 			lp := lastPage(N, b)
-			as = uniq([]uint64{0, 1, 2, lp, lp + 1, 1 << 16, 1 << 22, 1 << 31, 1<<32 - 1})
+			as = []uint64{0, 1, 2, lp, lp + 1, 1 << 16, 1 << 22, 1 << 31, 1<<32 - 1}
+			if b > 0 && b < 1<<32 {
+				// the first page index whose offset does not fit 32 bits, its predecessor, and the first index whose
+				// offset wraps to exactly 0 or to a small positive value (when there is one below 2^32)
+				w := (uint64(1)<<32 + b - 1) / b
+				as = append(as, w-1, w)
+			}
+			as = uniq(as)
 		}
 		for _, a := range as {
+			if !in.Height && a > 1<<32-1 {
+				continue
+			}
+			if abortA {
+				return
+			}
 			checkCell(r, chain, in, a, b)
 		}
 	}
@@ -1012,7 +1063,7 @@ func checkInstance(c *xs.Ctx, r *xs.Result, chain string, in *instance) {
 			for h := uint64(1); h <= uint64(N)+b; h += b {
 				o := safeCall(in, h, b)
 				r.Count("a_evaluations", 1)
-				if o.panicked != nil || o.err != nil || o.res == nil {
+				if o.hung || o.panicked != nil || o.err != nil || o.res == nil {
 					clean = checkCell(r, chain, in, h, b) && false
 					break
 				}
@@ -1029,7 +1080,7 @@ func checkInstance(c *xs.Ctx, r *xs.Result, chain string, in *instance) {
 			for p := uint64(0); p < pages; p++ {
 				o := safeCall(in, p, b)
 				r.Count("a_evaluations", 1)
-				if o.panicked != nil || o.err != nil || o.res == nil {
+				if o.hung || o.panicked != nil || o.err != nil || o.res == nil {
 					clean = checkCell(r, chain, in, p, b) && false
 					break
 				}
@@ -1061,7 +1112,7 @@ func checkInstance(c *xs.Ctx, r *xs.Result, chain string, in *instance) {
 		}
 		if !ok {
 			r.Violate("C18:"+in.Method+":concatenation", fmt.Sprintf("chain %q %s size %d: concatenating all pages gives %d element(s) %s, the store holds %d %s", chain, in.label(), b, len(concat), describe(concat, 4), len(want), describe(want, 4)),
-				map[string]interface{}{"part": "a", "concat": cellSpec{chain, in.Method, in.Arg, 0, b}})
+				map[string]interface{}{"tier": curTier, "part": "a", "concat": cellSpec{chain, in.Method, in.Arg, 0, b}})
 		}
 	}
 }
